@@ -276,7 +276,78 @@ func c02Sniff(b []byte, format string) string {
 	return strings.Join(p, " ")
 }
 
+// c02Retry: a COMMIT that is refused (one table of the transaction cannot be spelled in its format) leaves the session alive in the
+// interactive shell and in library use; the user repairs the cell, changes the other tables further — they shrink — and commits
+// again. What the second COMMIT writes must be what the same changes write in a transaction that never met the refusal.
+func c02Retry(w *core.Worker, i int) {
+	r := w.Rng(i, "retry")
+	long := strings.Repeat("long text ", r.Range(3, 12))
+	var ab strings.Builder
+	ab.WriteString("id,c1\n")
+	na := r.Range(6, 60)
+	for k := 1; k <= na; k++ {
+		fmt.Fprintf(&ab, "%d,%s%d\n", k, long, k)
+	}
+	files := map[string]string{"a.csv": ab.String(), "b.ltsv": "id:1\tv:one\nid:2\tv:two\n", "f.txt": "id v   \n1  one \n2  two \n", "src.csv": ab.String()}
+	bad := []struct{ breakIt, repair string }{
+		{"UPDATE `b.ltsv` SET v = 'tab\there' WHERE id = 1;", "UPDATE `b.ltsv` SET v = 'ok' WHERE id = 1;"},
+		{"UPDATE FIXED('[3,7]', `f.txt`) SET v = 'l1\nl2' WHERE id = 1;", "UPDATE FIXED('[3,7]', `f.txt`) SET v = 'ok' WHERE id = 1;"},
+		{"INSERT INTO `b.ltsv` VALUES (3, 'x\ty');", "DELETE FROM `b.ltsv` WHERE id = 3;"},
+	}[r.Intn(3)]
+	first := []string{"UPDATE a SET c1 = c1 || ' changed';", "CREATE TABLE `made.csv` AS SELECT * FROM src;", "UPDATE a SET c1 = c1 || ' changed'; CREATE TABLE `made.csv` AS SELECT * FROM src;"}[r.Intn(3)]
+	shrink := []string{"DELETE FROM a WHERE id > 2; UPDATE a SET c1 = 's';", "UPDATE a SET c1 = 's';", "ALTER TABLE a DROP c1;"}[r.Intn(3)]
+	if strings.Contains(first, "made.csv") {
+		shrink += " DELETE FROM `made.csv` WHERE id > 1; UPDATE `made.csv` SET c1 = 'm';"
+	}
+	run := func(dir string, stmts []string) (refused bool, err error) {
+		core.WriteFiles(dir, files)
+		s, e := core.NewSess(core.SessOpts{Dir: dir, Quiet: true})
+		if e != nil {
+			return false, e
+		}
+		defer s.Close()
+		for _, q := range stmts {
+			res := s.Exec(q)
+			if q == "COMMIT; -- first" {
+				refused = res.Err != nil
+				continue
+			}
+			if res.Err != nil {
+				return refused, fmt.Errorf("%s: %v", q, res.Err)
+			}
+		}
+		return refused, nil
+	}
+	for rep := 0; rep < 4; rep++ { // (the order in which a COMMIT writes its tables varies from run to run)
+		d1, d2 := core.FreshDir(w.Work, "retry"), core.FreshDir(w.Work, "retryctl")
+		refused, err := run(d1, []string{first, bad.breakIt, "COMMIT; -- first", bad.repair, shrink, "COMMIT;"})
+		if err != nil || !refused {
+			w.Count("retried_commits_not_refused_at_first", 1)
+			return
+		}
+		if _, err := run(d2, []string{first, shrink, "COMMIT;"}); err != nil {
+			return
+		}
+		for _, fn := range core.TakeSnap(d2).Names() {
+			if core.IsControlFile(fn) {
+				continue
+			}
+			got, _ := os.ReadFile(filepath.Join(d1, fn))
+			want, _ := os.ReadFile(filepath.Join(d2, fn))
+			if !bytes.Equal(got, want) && fn != "b.ltsv" && fn != "f.txt" {
+				w.Violation("retried-commit:file-differs", fmt.Sprintf("[%s | %s | COMMIT (refused) | %s | %s | COMMIT] %s holds %q, the same changes committed in one go write %q", first, bad.breakIt, bad.repair, shrink, fn, truncateStr(string(got), 160), truncateStr(string(want), 160)),
+					c02Replay{Path: "COMMIT after a refused COMMIT", Detail: first + " " + bad.breakIt + " COMMIT; " + bad.repair + " " + shrink + " COMMIT;"})
+				return
+			}
+		}
+		w.Count("commits_retried_after_a_refusal", 1)
+	}
+}
+
 func c02Case(w *core.Worker, i int) {
+	if i%20 == 0 {
+		c02Retry(w, i)
+	}
 	r := w.Rng(i, "")
 	d := c02Dialect{
 		Format:     []string{"CSV", "CSV", "TSV", "LTSV", "FIXED", "JSON", "JSONL"}[r.Intn(7)],
